@@ -140,6 +140,8 @@ def run(tape, ctx):
     desc["ops"] = ops
     n_ops = tape.between("c12.n_ops", 4, 15)
     nontrivial_calls = 0
+    did_big = False
+    big_ok = isinstance(case, A.WassersteinCase) and case.which in ("W-exact-spmatrix", "W-exact-lil", "W-exact-generator")
 
     def do_transform(ids, label):
         Xb, kwb = case.build(ids)
@@ -157,6 +159,8 @@ def run(tape, ctx):
 
     for opi in range(n_ops):
         kinds = [(5, "subset"), (3, "single"), (2, "all"), (2, "perm"), (2, "dup")]
+        if big_ok and not did_big:
+            kinds.append((1, "big"))
         if len(batches) >= 2:
             kinds.append((2, "concat"))
         if case.knobs or not ctx.interp:
@@ -177,7 +181,16 @@ def run(tape, ctx):
             ops.append({"op": "set_knob", "name": name, "value": v})
             probes.hit("knob-changed")
             continue
-        if k == "single":
+        if k == "big":
+            # a batch longer than the fixed inner chunk size (256) of the LOT kernels, built from repeated pool items
+            did_big = True
+            m = tape.between("c12.bigsize", 257, 300)
+            sub = tape.subtape_seed("c12.big_seed")
+            import random as _r
+            rr = _r.Random(sub)
+            ids = [rr.randrange(n) for _ in range(m)]
+            probes.hit("big-batch")
+        elif k == "single":
             ids = [tape.draw("c12.item", n)]
         elif k == "all":
             ids = list(range(n))
